@@ -6,12 +6,12 @@ set -u
 props=${@:-C01 C07 C08 C11 C12 C13 C14 C15 C16 C17}
 S=/tmp/cov; mkdir -p $S; rm -f $S/*.profraw
 B=$(dirname $(find ~/.rustup/toolchains/nightly-x86_64-unknown-linux-gnu -name llvm-cov | head -1))
-(cd /verif/engine && RUSTFLAGS="--cfg sas_lexer_verif -C instrument-coverage" CARGO_TARGET_DIR=$S/target cargo +nightly build --offline --profile dbg 2>&1 | tail -1)
+(cd /verif/engine && LLVM_PROFILE_FILE=$S/build_%p.profraw RUSTFLAGS="--cfg sas_lexer_verif -C instrument-coverage" CARGO_TARGET_DIR=$S/target cargo +nightly build --offline --profile dbg 2>&1 | tail -1)
 [ -d /verif/target/corpus ] || (cd /verif && ./check setup >/dev/null 2>&1)
 for p in $props; do
   LLVM_PROFILE_FILE=$S/$p.profraw $S/target/dbg/lexmc run --property $p --tier quick --out $S/r_$p.json --corpus /verif/target/corpus --known /verif/known_findings.json --cap-s ${CAP:-300} --build-name cov 2>&1 | tail -1 | cut -c1-160
 done
-$B/llvm-profdata merge -sparse $S/*.profraw -o $S/all.profdata
+rm -f $S/build_*.profraw; $B/llvm-profdata merge -sparse $S/*.profraw -o $S/all.profdata
 $B/llvm-cov report $S/target/dbg/lexmc -instr-profile=$S/all.profdata --sources /repo/crates/sas-lexer/src 2>&1 | tail -16 | cut -c1-60,100-175
 src=/repo/crates/sas-lexer/src/lexer
 $B/llvm-cov show $S/target/dbg/lexmc -instr-profile=$S/all.profdata --sources $src/mod.rs $src/numeric.rs $src/macro.rs $src/cursor.rs $src/hex.rs $src/text.rs $src/lexer_mode.rs > $S/show.txt 2>&1
